@@ -2,7 +2,7 @@ CONSTANTS
   Kinds = {"deflate", "shuffle", "fletcher32", "lzf"}
   Levels = {1, 6, 9}
   Widths = {1, 4, 8}
-  Payloads = {"empty", "one", "odd", "l10", "l11", "rep", "rnd", "far", "zeros"}
+  Payloads = {"empty", "one", "odd", "l10", "l11", "rep", "rnd", "far", "zeros", "r64km", "r64k", "r64kp", "runs"}
 SPECIFICATION Spec
 INVARIANTS Laws Emit
 CHECK_DEADLOCK FALSE
